@@ -152,6 +152,9 @@ def run(tape: Tape, params: dict) -> Outcome:
                     tag2 = tag + b"b"
                     d = tape.choice([0.05, T / 2], "phase.pairslow")
                     host.programs[tag] = [("recv_all",), ("pause", ("sleep", d)), ("respond", 200, [], [b"first"])]
+                    if tape.chance(1, 3, "phase.pairstream"):
+                        # event-stream style first request: stops, response unfinished, when told the client has gone
+                        host.programs[tag] = [("recv_all",), ("stream_until_disconnect", 8, max(0.02, d / 8))]
                     steps.append(("send", _get(tag) + _get(tag2)))
                     parser.expect(b"GET")
                     parser.expect(b"GET")
@@ -168,7 +171,11 @@ def run(tape: Tape, params: dict) -> Outcome:
             peer = H2Peer()
             info.peer = peer
             steps.append(("send", peer.preface()))
-            for pi in range(1 + nphase0):
+            # a prior-knowledge connection that never opens a stream is idle from the start
+            nostreams = tape.chance(1, 6, "h2.nostreams")
+            if nostreams:
+                info.history.append(("no-streams",))
+            for pi in range(0 if nostreams else 1 + nphase0):
                 tape.span_begin(ppos)
                 tag = b"c%dp%d" % (ci, pi)
                 kind = tape.weighted([4, 2, 2, 1], "phase.kind2")  # ok, slow, badhost, two concurrent
